@@ -1134,7 +1134,12 @@ class SessionTransaction(_StateChange, TransactionalContext):
         assert not self.session._deleted
 
         for s in self.session.identity_map.all_states():
-            if not dirty_only or s.modified or s in self._dirty:
+            if (
+                not dirty_only
+                or s.modified
+                or s in self._dirty
+                or s in self._deleted
+            ):
                 s._expire(s.dict, self.session.identity_map._modified)
 
     def _remove_snapshot(self) -> None:
